@@ -383,3 +383,81 @@ def split_h1_head(data: bytes):
         n, _, v = line.partition(b":")
         headers.append((n.strip().lower(), v.strip()))
     return status, headers, data[idx + 4:]
+
+
+class H2FrameObserver:
+    """Frame-level reader of what an HTTP/2 server wrote (hyperframe + hpack only, no state
+    machine), for sessions in which the client sends frames that h2's client API refuses."""
+
+    def __init__(self) -> None:
+        with NoTracing():
+            import hpack
+
+            self.decoder = hpack.Decoder()
+            self.buf = b""
+            self.streams: Dict[int, H2Stream] = {}
+            self.goaway: Optional[int] = None
+            self.errors: List[str] = []
+            self._hdr_sid: Optional[int] = None
+            self._hdr_block = b""
+            self._hdr_end_stream = False
+            self.frames: List[str] = []
+
+    def _s(self, sid: int) -> H2Stream:
+        return self.streams.setdefault(sid, H2Stream())
+
+    @untraced
+    def feed(self, data: bytes) -> None:
+        import hyperframe.frame as hf
+
+        self.buf += data
+        while len(self.buf) >= 9:
+            try:
+                frame, length = hf.Frame.parse_frame_header(memoryview(self.buf[:9]))
+            except Exception as e:  # noqa: BLE001
+                self.errors.append("unparseable frame header: %r" % (e,))
+                self.buf = b""
+                return
+            if len(self.buf) < 9 + length:
+                return
+            body = self.buf[9:9 + length]
+            self.buf = self.buf[9 + length:]
+            try:
+                frame.parse_body(memoryview(body))
+            except Exception as e:  # noqa: BLE001
+                self.errors.append("unparseable frame body: %r" % (e,))
+                continue
+            self.frames.append(type(frame).__name__)
+            if isinstance(frame, (hf.HeadersFrame, hf.ContinuationFrame)):
+                if isinstance(frame, hf.HeadersFrame):
+                    self._hdr_sid = frame.stream_id
+                    self._hdr_block = b""
+                    self._hdr_end_stream = "END_STREAM" in frame.flags
+                self._hdr_block += frame.data
+                if "END_HEADERS" in frame.flags:
+                    try:
+                        headers = [(bytes(n) if isinstance(n, bytes) else n.encode(), bytes(v) if isinstance(v, bytes) else v.encode())
+                                   for n, v in self.decoder.decode(self._hdr_block, raw=True)]
+                    except Exception as e:  # noqa: BLE001
+                        self.errors.append("hpack: %r" % (e,))
+                        headers = []
+                    st = self._s(self._hdr_sid)
+                    status = [v for n, v in headers if n == b":status"]
+                    if st.headers is None or (st.status is not None and st.status < 200):
+                        if status and status[0].startswith(b"1"):
+                            st.informational.append(headers)
+                        else:
+                            st.headers = headers
+                    else:
+                        st.trailers = headers
+                    if self._hdr_end_stream:
+                        st.ended += 1
+            elif isinstance(frame, hf.DataFrame):
+                st = self._s(frame.stream_id)
+                st.data += bytes(frame.data)
+                if "END_STREAM" in frame.flags:
+                    st.ended += 1
+            elif isinstance(frame, hf.RstStreamFrame):
+                self._s(frame.stream_id).reset = int(frame.error_code)
+            elif isinstance(frame, hf.GoAwayFrame):
+                self.goaway = int(frame.error_code)
